@@ -1878,27 +1878,6 @@ func (schema *Schema) visitJSONArray(settings *schemaValidationSettings, value [
 		me = append(me, err)
 	}
 
-	// "uniqueItems"
-	if sliceUniqueItemsChecker == nil {
-		sliceUniqueItemsChecker = isSliceOfUniqueItems
-	}
-	if v := schema.UniqueItems; v && !sliceUniqueItemsChecker(value) {
-		if settings.failfast {
-			return errSchema
-		}
-		err := &SchemaError{
-			Value:                 value,
-			Schema:                schema,
-			SchemaField:           "uniqueItems",
-			Reason:                "duplicate items found",
-			customizeMessageError: settings.customizeMessageError,
-		}
-		if !settings.multiError {
-			return err
-		}
-		me = append(me, err)
-	}
-
 	// "items"
 	if itemSchemaRef := schema.Items; itemSchemaRef != nil {
 		itemSchema := itemSchemaRef.Value
@@ -1918,6 +1897,27 @@ func (schema *Schema) visitJSONArray(settings *schemaValidationSettings, value [
 				}
 			}
 		}
+	}
+
+	// "uniqueItems" (after the items: validating them may have filled in their defaults)
+	if sliceUniqueItemsChecker == nil {
+		sliceUniqueItemsChecker = isSliceOfUniqueItems
+	}
+	if v := schema.UniqueItems; v && !sliceUniqueItemsChecker(value) {
+		if settings.failfast {
+			return errSchema
+		}
+		err := &SchemaError{
+			Value:                 value,
+			Schema:                schema,
+			SchemaField:           "uniqueItems",
+			Reason:                "duplicate items found",
+			customizeMessageError: settings.customizeMessageError,
+		}
+		if !settings.multiError {
+			return err
+		}
+		me = append(me, err)
 	}
 
 	if len(me) > 0 {
